@@ -1,17 +1,32 @@
 #!/bin/bash
-# Runs every kept seeded change against its property's quick check (on scratch copies) and writes seeded/MATRIX.md.
-cd /verif
-out=seeded/MATRIX.md
-echo "| seeded change | property | quick check | first violation class reported |" > $out.tmp
-echo "|---|---|---|---|" >> $out.tmp
-miss=0
-for d in seeded/*/; do
-  id=$(basename $d); prop=$(python3 -c "import json;print(json.load(open('$d/meta.json'))['property'])")
-  res=$(tools/try_seed.sh $d/patch.diff $prop quick)
-  rc=$(echo "$res" | sed -n 's/^check_exit=//p')
+# Sensitivity self-test: every kept seeded change is applied to a scratch copy of /repo's working tree and its
+# property's quick check is run against that copy; writes seeded/MATRIX.md. The checks are built from a SNAPSHOT
+# of /verif's sources taken at start, so editing /verif meanwhile cannot disturb it. Up to $JOBS seeds in parallel.
+JOBS=${JOBS:-2}
+SNAP=$(mktemp -d /var/tmp/verifsnap.XXXXXX)
+trap 'rm -rf "$SNAP"' EXIT
+rsync -a --exclude .git --exclude .build --exclude replays --exclude evidence /verif/ "$SNAP/verif/"
+cd "$SNAP/verif" || exit 2
+one() {
+  d=$1; id=$(basename $d); prop=$(python3 -c "import json;print(json.load(open('$d/meta.json'))['property'])")
+  W=$(mktemp -d /var/tmp/verifseed.XXXXXX)
+  rsync -a --exclude .git /repo/ "$W/"
+  if ! (cd "$W" && patch -p1 -s --no-backup-if-mismatch < "$SNAP/verif/$d/patch.diff"); then echo "| $id | $prop | **PATCH DOES NOT APPLY** | |"; rm -rf "$W"; return; fi
+  res=$(VERIF_REPO="$W" VERIF_NO_EVIDENCE=1 VERIF_REPLAY_DIR="$W.replays" VERIF_WORKERS=8 "$SNAP/verif/bin/check" $prop quick 2>&1)
+  rc=$?
   cls=$(echo "$res" | grep -m1 -E "^  C[0-9]+/" | sed -e 's/^  //' -e 's/: .*//' | cut -c1-110)
-  if [ "$rc" = "1" ]; then verdict="caught"; else verdict="**MISSED (exit $rc)**"; miss=$((miss+1)); fi
-  echo "| $id | $prop | $verdict | \`$cls\` |" >> $out.tmp
-done
-mv $out.tmp $out
-echo "seed matrix done: missed=$miss"
+  rm -rf "$W" "$W.replays"
+  if [ "$rc" = "1" ]; then verdict="caught"; else verdict="**NOT CAUGHT (exit $rc)**"; fi
+  echo "| $id | $prop | $verdict | \`$cls\` |"
+}
+export -f one; export SNAP
+ls -d seeded/*/ | xargs -P "$JOBS" -I{} bash -c 'one {}' | sort > "$SNAP/rows"
+{
+  echo "| seeded change | property | quick check | first violation class reported |"
+  echo "|---|---|---|---|"
+  cat "$SNAP/rows"
+} > /verif/seeded/MATRIX.md
+n=$(grep -c "NOT CAUGHT\|DOES NOT APPLY" /verif/seeded/MATRIX.md)
+echo "seed matrix done: $(wc -l < "$SNAP/rows") seeds, not caught: $n"
+grep "NOT CAUGHT\|DOES NOT APPLY" /verif/seeded/MATRIX.md | cut -c1-100
+exit 0
